@@ -611,15 +611,31 @@ func (r *berRunner) roundTrip(c BerCase, ptr reflect.Value, params string) []byt
 	return nil
 }
 
+// choiceTags lists the context tags that select an alternative of CHOICE type t, including those of
+// untagged alternatives that are CHOICEs themselves.
+func choiceTags(t reflect.Type) []int {
+	for t.Kind() == reflect.Ptr {
+		t = t.Elem()
+	}
+	tags := []int{}
+	if kindOfType(t) != "choice" {
+		return tags
+	}
+	for i := 1; i < t.NumField(); i++ {
+		if n := parseBerTag(t.Field(i).Tag.Get("ber")).Tag; n >= 0 {
+			tags = append(tags, n)
+		} else {
+			tags = append(tags, choiceTags(t.Field(i).Type)...)
+		}
+	}
+	return tags
+}
+
 func targetInfo(t reflect.Type) Node {
 	k := kindOfType(t)
 	info := Node{"k": k, "tags": []int{}}
 	if k == "choice" {
-		tags := []int{}
-		for i := 1; i < t.NumField(); i++ {
-			tags = append(tags, parseBerTag(t.Field(i).Tag.Get("ber")).Tag)
-		}
-		info["tags"] = tags
+		info["tags"] = choiceTags(t)
 	}
 	return info
 }
